@@ -132,71 +132,6 @@ def valid (p : Str) : Bool :=
 
 def trimWs (s : Str) : Str := ((s.dropWhile isWs).reverse.dropWhile isWs).reverse
 
-/-- body of a JSON string literal → Go string (escapes resolved; a `\u` escape gives the character with that code —
-surrogate pairs and invalid UTF-8 are not reproduced exactly, they are never hex digits or account characters) -/
-def unescape : Str → Str
-  | [] => []
-  | '\\' :: 'u' :: a :: b :: c :: d :: r =>
-    match Hex.charNibble? a, Hex.charNibble? b, Hex.charNibble? c, Hex.charNibble? d with
-    | some a, some b, some c, some d => Char.ofNat (((a * 16 + b) * 16 + c) * 16 + d) :: unescape r
-    | _, _, _, _ => unescape r
-  | '\\' :: e :: r =>
-    (if e == 'b' then Char.ofNat 8 else if e == 'f' then Char.ofNat 12 else if e == 'n' then '\n'
-     else if e == 'r' then '\r' else if e == 't' then '\t' else e) :: unescape r
-  | c :: r => c :: unescape r
-
-/-- json.Unmarshal(data, &s) for a Go `string` target with s = "" before: syntax error, type error for anything but a
-string or null; `null` leaves the string empty -/
-def unmarshalString (data : Str) : Outcome Str :=
-  if !valid data then .err "syntax"
-  else
-    let v := trimWs data
-    match v with
-    | '"' :: r => .ok (unescape r.dropLast)
-    | 'n' :: _ => .ok []
-    | _ => .err "type"
-
-/-! ## generated integer types (tlb/integers.go) -/
-
-/-- the generator quotes widths of 57 bits and more -/
-def quotedWidth (bits : Nat) : Bool := decide (bits ≥ 57)
-
-def printUintN (bits : Nat) (v : Nat) : Str := if quotedWidth bits then quote (printNat v) else printNat v
-def printIntN (bits : Nat) (v : Int) : Str := if quotedWidth bits then quote (printInt v) else printInt v
-
-/-- `strconv.ParseUint(strings.Trim(string(p), "\""), 10, bits)` -/
-def parseUintN (bits : Nat) (p : Str) : Outcome Nat := (parseUint (trimQuote p) 10 bits).toOutcome
-/-- `strconv.ParseInt(strings.Trim(string(p), "\""), 10, bits)` -/
-def parseIntN (bits : Nat) (p : Str) : Outcome Int := parseInt (trimQuote p) 10 bits
-
-/-- big.Int based types (Uint128…Int257, VarUIntegerN): `"` + i.String() + `"` -/
-def printBig (v : Int) : Str := quote (printInt v)
-def parseBigJson (p : Str) : Outcome Int := parseBig (trimQuote p)
-
-/-! ## byte arrays -/
-
-def hexLower (bs : List UInt8) : Str :=
-  bs.flatMap fun b => [Hex.nibbleChar (b.toNat / 16), Hex.nibbleChar (b.toNat % 16)]
-
-/-- BitsN ([n]byte): `"%x"` -/
-def printBitsN (bs : List UInt8) : Str := quote (hexLower bs)
-/-- hex.DecodeString(Trim) then the length check -/
-def parseBitsN (n : Nat) (p : Str) : Outcome (List UInt8) :=
-  match Hex.decodeChars (trimQuote p) with
-  | none => .err "hex"
-  | some bs => if bs.length ≠ n then .err "length" else .ok bs
-
-/-- tl.Int256: json.Marshal(hex) / json.Unmarshal into a string, hex.DecodeString, length 32 -/
-def printInt256 (bs : List UInt8) : Str := quote (hexLower bs)
-def parseInt256 (p : Str) : Outcome (List UInt8) :=
-  match unmarshalString p with
-  | .ok h =>
-    match Hex.decodeChars h with
-    | none => .err "hex"
-    | some bs => if bs.length ≠ 32 then .err "length" else .ok bs
-  | .err e => .err e
-  | .panic e => .panic e
-
 /-! ### UTF-8 decoding as Go does it for rune-wise code (`range` over a string, fmt's ReadRune)
 
 `utf8.DecodeRune`: a well-formed sequence gives its code point; anything else (stray continuation byte, overlong
@@ -247,6 +182,100 @@ def utf8Decode (s : Str) : Str := utf8DecodeF s.length s
 /-- `for _, x := range s { … uint8(x) … }`: the runes truncated to a byte (how BitStringFromFiftHex read its input
 before it was made byte-wise; kept for the record) -/
 def runeBytes (s : Str) : Str := (utf8Decode s).map fun r => Char.ofNat (r.toNat % 256)
+
+/-- utf8.EncodeRune (surrogates and values above U+10FFFF become U+FFFD) -/
+def utf8EncodeRune (n : Nat) : Str :=
+  let n := if (0xD800 ≤ n ∧ n ≤ 0xDFFF) ∨ 0x10FFFF < n then 0xFFFD else n
+  if n < 0x80 then [Char.ofNat n]
+  else if n < 0x800 then [Char.ofNat (0xC0 + n / 64), Char.ofNat (0x80 + n % 64)]
+  else if n < 0x10000 then [Char.ofNat (0xE0 + n / 4096), Char.ofNat (0x80 + n / 64 % 64), Char.ofNat (0x80 + n % 64)]
+  else [Char.ofNat (0xF0 + n / 262144), Char.ofNat (0x80 + n / 4096 % 64), Char.ofNat (0x80 + n / 64 % 64),
+    Char.ofNat (0x80 + n % 64)]
+
+def utf8Encode (s : Str) : Str := s.flatMap fun c => utf8EncodeRune c.toNat
+
+def hex4 (a b c d : Char) : Option Nat :=
+  match Hex.charNibble? a, Hex.charNibble? b, Hex.charNibble? c, Hex.charNibble? d with
+  | some a, some b, some c, some d => some (((a * 16 + b) * 16 + c) * 16 + d)
+  | _, _, _, _ => none
+
+/-- encoding/json's unquote without the final UTF-8 sanitation: the bytes of the string with the escapes resolved
+(`\uXXXX` becomes the UTF-8 encoding of the code point; a high surrogate followed by an escaped low surrogate is one
+code point, any other surrogate is U+FFFD) -/
+def unescape : Str → Str
+  | [] => []
+  | '\\' :: 'u' :: a :: b :: c :: d :: '\\' :: 'u' :: e :: f :: g :: h :: r =>
+    match hex4 a b c d, hex4 e f g h with
+    | some hi, some lo =>
+      if 0xD800 ≤ hi ∧ hi ≤ 0xDBFF ∧ 0xDC00 ≤ lo ∧ lo ≤ 0xDFFF then
+        utf8EncodeRune (0x10000 + (hi - 0xD800) * 0x400 + (lo - 0xDC00)) ++ unescape r
+      else utf8EncodeRune hi ++ unescape ('\\' :: 'u' :: e :: f :: g :: h :: r)
+    | some hi, none => utf8EncodeRune hi ++ unescape ('\\' :: 'u' :: e :: f :: g :: h :: r)
+    | none, _ => unescape ('\\' :: 'u' :: e :: f :: g :: h :: r)
+  | '\\' :: 'u' :: a :: b :: c :: d :: r =>
+    match hex4 a b c d with
+    | some x => utf8EncodeRune x ++ unescape r
+    | none => unescape r
+  | '\\' :: e :: r =>
+    (if e == 'b' then Char.ofNat 8 else if e == 'f' then Char.ofNat 12 else if e == 'n' then '\n'
+     else if e == 'r' then '\r' else if e == 't' then '\t' else e) :: unescape r
+  | c :: r => c :: unescape r
+termination_by s => s.length
+
+/-- the Go string a JSON string literal denotes: escapes resolved, every invalid UTF-8 byte replaced by U+FFFD -/
+def goUnquote (body : Str) : Str := utf8Encode (utf8Decode (unescape body))
+
+/-- json.Unmarshal(data, &s) for a Go `string` target with s = "" before: syntax error, type error for anything but a
+string or null; `null` leaves the string empty -/
+def unmarshalString (data : Str) : Outcome Str :=
+  if !valid data then .err "syntax"
+  else
+    let v := trimWs data
+    match v with
+    | '"' :: r => .ok (goUnquote r.dropLast)
+    | 'n' :: _ => .ok []
+    | _ => .err "type"
+
+/-! ## generated integer types (tlb/integers.go) -/
+
+/-- the generator quotes widths of 57 bits and more -/
+def quotedWidth (bits : Nat) : Bool := decide (bits ≥ 57)
+
+def printUintN (bits : Nat) (v : Nat) : Str := if quotedWidth bits then quote (printNat v) else printNat v
+def printIntN (bits : Nat) (v : Int) : Str := if quotedWidth bits then quote (printInt v) else printInt v
+
+/-- `strconv.ParseUint(strings.Trim(string(p), "\""), 10, bits)` -/
+def parseUintN (bits : Nat) (p : Str) : Outcome Nat := (parseUint (trimQuote p) 10 bits).toOutcome
+/-- `strconv.ParseInt(strings.Trim(string(p), "\""), 10, bits)` -/
+def parseIntN (bits : Nat) (p : Str) : Outcome Int := parseInt (trimQuote p) 10 bits
+
+/-- big.Int based types (Uint128…Int257, VarUIntegerN): `"` + i.String() + `"` -/
+def printBig (v : Int) : Str := quote (printInt v)
+def parseBigJson (p : Str) : Outcome Int := parseBig (trimQuote p)
+
+/-! ## byte arrays -/
+
+def hexLower (bs : List UInt8) : Str :=
+  bs.flatMap fun b => [Hex.nibbleChar (b.toNat / 16), Hex.nibbleChar (b.toNat % 16)]
+
+/-- BitsN ([n]byte): `"%x"` -/
+def printBitsN (bs : List UInt8) : Str := quote (hexLower bs)
+/-- hex.DecodeString(Trim) then the length check -/
+def parseBitsN (n : Nat) (p : Str) : Outcome (List UInt8) :=
+  match Hex.decodeChars (trimQuote p) with
+  | none => .err "hex"
+  | some bs => if bs.length ≠ n then .err "length" else .ok bs
+
+/-- tl.Int256: json.Marshal(hex) / json.Unmarshal into a string, hex.DecodeString, length 32 -/
+def printInt256 (bs : List UInt8) : Str := quote (hexLower bs)
+def parseInt256 (p : Str) : Outcome (List UInt8) :=
+  match unmarshalString p with
+  | .ok h =>
+    match Hex.decodeChars h with
+    | none => .err "hex"
+    | some bs => if bs.length ≠ 32 then .err "length" else .ok bs
+  | .err e => .err e
+  | .panic e => .panic e
 
 /-! ### ton.Bits256: `fmt.Fscanf(r, "\"%x\"", &sl)` (fmt/scan.go) -/
 
@@ -502,6 +531,150 @@ def parseViaString {α} (ofText : Str → Outcome α) (p : Str) : Outcome α :=
   | .ok s => ofText s
   | .err e => .err e
   | .panic e => .panic e
+
+end Tongo.Json
+
+namespace Tongo.Json
+open Tongo Tongo.Dec
+/-! ## message-body envelopes: abi.InMsgBody / abi.ExtOutMsgBody (abi/messages.go)
+
+    MarshalJSON:   {}                                                      (SumType = "", the empty body)
+                   {"SumType": "<name>",["OpCode":<n>,]"Value":<value>}    value = `"` + BOC hex + `"` for "Unknown",
+                                                                           json.Marshal(body.Value) for a known type
+    UnmarshalJSON: json.Unmarshal(data, &struct{SumType string; OpCode *uint32; Value json.RawMessage}), then the
+                   dispatch on SumType ("" ⇒ done, "Unknown" ⇒ Cell.UnmarshalJSON(Value), known ⇒ json.Unmarshal(Value))
+
+The cell codec and the codecs of the known body types are parameters. encoding/json's object decoding is modelled:
+members in order, keys matched after unescaping by simple case folding (ASCII, `ſ` ↦ S, `K` (Kelvin) ↦ K), later
+duplicates win, unknown keys skipped, a value of the wrong JSON type for a field is an error (encoding/json saves the
+first such error and returns it at the end). -/
+
+/-- the text of the JSON value at the head of `s` and what follows it -/
+def rawValue (fuel : Nat) (s : Str) : Option (Str × Str) :=
+  match scanJ fuel .value s with
+  | some rest => some (s.take (s.length - rest.length), rest)
+  | none => none
+
+/-- the members of an object after `{` (white space skipped, not `}`): key text (between the quotes) and value text -/
+def rawMembers (vfuel : Nat) : Nat → Str → Option (List (Str × Str))
+  | 0, _ => none
+  | n + 1, s =>
+    match s with
+    | '"' :: r =>
+      match scanString r with
+      | none => none
+      | some rest =>
+        let key := r.take (r.length - rest.length - 1)
+        match skipWs rest with
+        | ':' :: r2 =>
+          match rawValue vfuel (skipWs r2) with
+          | none => none
+          | some (v, r3) =>
+            match skipWs r3 with
+            | '}' :: _ => some [(key, v)]
+            | ',' :: r4 => (rawMembers vfuel n (skipWs r4)).map fun ms => (key, v) :: ms
+            | _ => none
+        | _ => none
+    | _ => none
+
+/-- members of the object `v` (`v` is a valid, trimmed JSON value); `none` when `v` is not an object -/
+def objectMembers (v : Str) : Option (List (Str × Str)) :=
+  match v with
+  | '{' :: r =>
+    match skipWs r with
+    | '}' :: _ => some []
+    | r' => rawMembers (2 * v.length + 2) (v.length + 1) r'
+  | _ => none
+
+/-- encoding/json's foldName on one rune -/
+def foldChar (c : Char) : Char :=
+  let n := c.toNat
+  if 97 ≤ n ∧ n ≤ 122 then Char.ofNat (n - 32)
+  else if n = 0x17F then 'S'
+  else if n = 0x212A then 'K'
+  else c
+
+def foldKey (k : Str) : Str := (utf8Decode (unescape k)).map foldChar
+
+/-- the state of the anonymous struct while its members are stored -/
+structure EnvFields where
+  sumType : Str := []
+  opCode : Option Nat := none
+  value : Option Str := none
+
+/-- literalStore for the three field types -/
+def storeMember (st : EnvFields) (key val : Str) : Outcome EnvFields :=
+  let fk := foldKey key
+  if fk = "SUMTYPE".toList then
+    match val with
+    | '"' :: r => .ok { st with sumType := goUnquote r.dropLast }
+    | 'n' :: _ => .ok st
+    | _ => .err "cannot unmarshal into string"
+  else if fk = "OPCODE".toList then
+    match val with
+    | 'n' :: _ => .ok { st with opCode := none }
+    | c :: _ =>
+      if c == '"' || c == '{' || c == '[' || c == 't' || c == 'f' then .err "cannot unmarshal into uint32"
+      else match parseUint val 10 64 with
+        | .ok n => if n < 2 ^ 32 then .ok { st with opCode := some n } else .err "overflow"
+        | _ => .err "cannot unmarshal number into uint32"
+    | [] => .err "empty"
+  else if fk = "VALUE".toList then .ok { st with value := some val }
+  else .ok st
+
+def storeMembers (st : EnvFields) : List (Str × Str) → Outcome EnvFields
+  | [] => .ok st
+  | (k, v) :: ms => (storeMember st k v).bind fun st' => storeMembers st' ms
+
+/-- json.Unmarshal(data, &r) for the anonymous struct -/
+def unmarshalEnvelope (data : Str) : Outcome EnvFields :=
+  if !valid data then .err "syntax"
+  else
+    let v := trimWs data
+    match v with
+    | 'n' :: _ => .ok {}
+    | _ =>
+      match objectMembers v with
+      | some ms => storeMembers {} ms
+      | none => .err "cannot unmarshal into struct"
+
+/-- a decoded message body: empty, unknown (a cell), or a known type -/
+inductive Body (C V : Type) where
+  | empty (op : Option Nat)
+  | unknown (op : Option Nat) (c : C)
+  | known (name : Str) (op : Option Nat) (v : V)
+
+def unknownName : Str := "Unknown".toList
+
+/-- InMsgBody.UnmarshalJSON / ExtOutMsgBody.UnmarshalJSON; `parseCell` is Cell.UnmarshalJSON, `parseKnown name` the
+decoder of the registered type of that name (`none`: not registered) -/
+def parseEnvelope {C V} (parseCell : Str → Outcome C) (parseKnown : Str → Option (Str → Outcome V)) (data : Str) :
+    Outcome (Body C V) :=
+  (unmarshalEnvelope data).bind fun r =>
+    if r.sumType = [] then .ok (.empty r.opCode)
+    else if r.sumType = unknownName then
+      match r.value with
+      | none => .err "unexpected end of JSON input"
+      | some raw => (parseCell raw).bind fun c => .ok (.unknown r.opCode c)
+    else
+      match parseKnown r.sumType with
+      | none => .err "unknown message body type"
+      | some pk =>
+        match r.value with
+        | none => .err "unexpected end of JSON input"
+        | some raw => (pk raw).bind fun v => .ok (.known r.sumType r.opCode v)
+
+def printOp : Option Nat → Str
+  | none => []
+  | some n => "\"OpCode\":".toList ++ printNat n ++ [',']
+
+/-- InMsgBody.MarshalJSON (an empty body drops its op code) -/
+def printEnvelope {C V} (printCell : C → Str) (printKnown : V → Str) : Body C V → Str
+  | .empty _ => ['{', '}']
+  | .unknown op c => "{\"SumType\": \"".toList ++ unknownName ++ "\",".toList ++ printOp op ++ "\"Value\":".toList ++
+      printCell c ++ ['}']
+  | .known name op v => "{\"SumType\": \"".toList ++ name ++ "\",".toList ++ printOp op ++ "\"Value\":".toList ++
+      printKnown v ++ ['}']
 
 end Tongo.Json
 
